@@ -488,6 +488,10 @@ def check(ctx, rep):
     from .c05 import request_target_evaluation
 
     request_target_evaluation(ctx, rep, "R04g")
+    from .c05 import request_length_obligations
+
+    rep.rule("R04h", "= R05i: the request line is read and used whole (a cut request names a different object, or loses its Gopher+ / HTTP marker)", floor=4)
+    request_length_obligations(ctx, rep, "R04h")
     rep.rule("R04a", "copy loop: 'rb' open in a with; each chunk written once unchanged; loop ends only on an empty read", floor=1)
     rep.rule("R04b", "Gopher+ length: transforming handlers leave size unset; generated menus use the unknown-length marker", floor=5)
     rep.rule("R04c", "HTTP HEAD: no body-producing call reachable; header writes independent of the method", floor=1)
